@@ -6,9 +6,12 @@ Correspondence: generated POMDPs (harness/gen_pomdp.py) -> msdm PointBasedValueI
   * mirror_cmp (bigQ): the mirror of point_based_value_iteration on the recorded belief set vs the returned
     alpha vectors (theorem C08_msdm_pbvi_upper turns acceptance into  value <= W* + tail + tol);
   * chk_qtableF (Q): msdm's Q table vs an exact fixed point V* (theorem C08_msdm_qmdp_lower);
+  * chk_sweepF (Q): the implementation's LAST sweep re-checked independently of tie-breaking: every action's
+    backed-up vector at every recorded belief point has the value  r.b + gamma sum_o max_alpha alpha.(b T_a O_ao)
+    computed from the previous alpha vectors (absorbing rows zeroed), and the selected action is maximal;
   * the bracketing oracle WoptF k (exact expectimax on unnormalised beliefs) with tail(k):
-    chk_pbvi_upperF / chk_pbvi_le_qmdpF / chk_crossF / chk_qmdp_lowerF on msdm's own alpha vectors / Q table
-    at test beliefs AND at the points of the recorded belief set;
+    chk_pbvi_upperF / chk_crossF / chk_qmdp_lowerF and the j-step QMDP table comparison (le_tab) on msdm's own
+    alpha vectors / Q table at test beliefs AND at the points of the recorded belief set;
   * alpha_valueF / alpha_avF / qmdp_avF vs policy.value / action_value; greedy_checkF on action_dist;
   * fully observable cases: QMDP value within tail of Wopt, PBVI exact on successor-closed belief sets.
 """
